@@ -184,6 +184,23 @@ def run(chk: Check) -> None:
             ok = (len(c.args) == 1 and isinstance(c.args[0], ast.Starred) and stands_for(c.args[0].value, 'init_args', ('()', 'tuple()', '[]'))
                   and len(c.keywords) == 1 and c.keywords[0].arg is None and stands_for(c.keywords[0].value, 'init_kwargs', ('{}', 'dict()')))
             chk.ob('PROV-loader', hf, ok, f'{handler}: constructed with exactly the task\'s positional and keyword arguments', node=c, kind='ctor-args')
+    # "a persister is configured" is asked by TRUTH VALUE (``if not self._persister``): that is "is not None" only as long as no persister class gives its
+    # instances a truth value of their own -- with __len__ / __bool__ an EMPTY persister is "no persister" and persisting tasks are rejected
+    truth_tests = []
+    for hname in ('_launch', '_create', '_continue'):
+        hf_ = prog.view(pl.vmethods[hname])
+        ffh = chk.ctx.facts.analyse(hf_)
+        for t_ in ffh.cfg.nodes:
+            if t_.kind == 'test' and (('T', 'self._persister') in ffh.cond_atoms(t_.ast.test, True) | ffh.cond_atoms(t_.ast.test, False)
+                                      or ('F', 'self._persister') in ffh.cond_atoms(t_.ast.test, True) | ffh.cond_atoms(t_.ast.test, False)):
+                truth_tests.append((hf_, t_))
+    if truth_tests:
+        base_p = prog.cls('persistence.Persister')
+        for k_ in [base_p] + prog.subclasses(base_p):
+            own = [m_ for m_ in ('__len__', '__bool__') if k_.lookup(m_) is not None]
+            chk.ob('GUARD-rejection', k_.qualname, not own, f'{k_.name} instances have no truth value of their own (the launcher asks "is a persister configured" with `not self._persister` in '
+                   f'{sorted({h.name for h, _ in truth_tests})})' + ('' if not own else f': it defines {own}, so a persister that holds nothing yet is taken for "no persister" and every persisting / '
+                   'continue task is rejected'), kind='persister-truth-is-presence', expr=k_.name)
     # nowait
     for handler in ('_launch', '_continue'):
         hf = prog.view(pl.vmethods[handler])
